@@ -7,7 +7,7 @@
    reg_count, registration, __getstate__, __setstate__, __repr__, __hex__, __oct__) have no model counterpart and are stated directly. *)
 From Coq Require Import String Ascii.
 From NV Require Import Base.Tac Base.PyVal Base.PyStr Model.Ip Model.Ieee Model.Eui Model.SrcPrelude Model.SrcPreludeStr Model.SrcPreludeSRCE
-  Model.SrcPreludeViews Model.SrcPreludeEui2 Model.SrcPreludeIeee Model.SrcPreludeG Gen.pysrc_euic_gen Gen.pysrc_euib_gen Gen.pysrc_euig_gen
+  Model.SrcPreludeViews Model.SrcPreludeEui2 Model.SrcPreludeIeee Model.SrcPreludeG Gen.pysrc_eui_gen Gen.pysrc_euic_gen Gen.pysrc_euib_gen Gen.pysrc_euig_gen
   Proofs.GenOk_Src_C19_b Proofs.GenOk_Src_C08_f Proofs.Coherence_Text.
 Import ListNotations.
 Open Scope list_scope.
@@ -100,3 +100,24 @@ Lemma C19_tie_g_eui_ok :
      omap (fun st => (fst st, keep5 (snd st))) (src_IAB_init_int IAB FILE v0 iab false) =
      (do k <- iab_value iab; omap (fun r => (k, r)) (iab_lookup iab (reg_rows IAB (FILE "iab.txt"%string) k)))).
 Proof. split; [exact src_OUI_init_ok | exact src_IAB_init_ok]. Qed.
+
+(* EUI.__repr__ and EUI.info: no model counterpart; stated directly over the translated __str__ and the translated constructors *)
+Definition reg_of {A} (o : option Z) (f : Z -> outcome A) : outcome A :=
+  match o with None => Raise AttributeError | Some e => f e end.
+
+Lemma C19_tie_g_info_ok :
+  (forall ver v d, src_EUI_repr ver v d = omap (fun s => append "EUI('" (append s "')")) (src_EUI_str ver v d)) /\
+  (forall OUI IAB FILE ver v, src_EUI_info OUI IAB FILE ver v =
+     (do r0 <- reg_of (src_EUI_oui ver v) (fun e => do st <- src_OUI_init_int OUI FILE 0 e; SrcPreludeSRCE.py_index (snd st) 0);
+      if src_EUI_is_iab ver v
+      then do r <- reg_of (src_EUI_iab ver v) (fun e => do st <- src_IAB_init_int IAB FILE 0 e false; Ok (snd st)); Ok (r0, Some r)
+      else Ok (r0, None))).
+Proof.
+  split; [reflexivity|]. intros OUI IAB FILE ver v. unfold src_EUI_info, reg_of, src_OUI_registration, src_IAB_registration. cbv zeta.
+  destruct (src_EUI_oui ver v) as [e|]; [|reflexivity].
+  destruct (src_OUI_init_int OUI FILE 0 e) as [st|x]; [|reflexivity]. cbn [bind fst snd].
+  unfold orec. destruct (SrcPreludeSRCE.py_index (snd st) 0) as [r0|x]; [|reflexivity]. cbn [bind fst snd].
+  destruct (src_EUI_is_iab ver v); [|reflexivity].
+  destruct (src_EUI_iab ver v) as [i|]; [|reflexivity].
+  destruct (src_IAB_init_int IAB FILE 0 i false) as [st2|x]; reflexivity.
+Qed.
